@@ -1,0 +1,28 @@
+//! Read-only accessors for the verification harness (`--cfg qcow2_rs_verif`).
+use super::*;
+
+impl<K: Clone + PartialEq + Eq + Hash + std::fmt::Debug + std::cmp::PartialOrd + Ord, V>
+    AsyncLruCache<K, V>
+{
+    /// All committed entries as (key, dirty, users, entry), sorted by key.
+    /// Does not touch LRU stamps.  `users` is the strong count seen before
+    /// the returned clone was taken (1 == only the cache holds it).
+    pub(crate) fn verif_entries(&self) -> Vec<(K, bool, usize, AsyncLruCacheEntry<V>)> {
+        let map = self.rmap.read().unwrap();
+        let mut v: Vec<_> = map
+            .iter()
+            .map(|(k, e)| (k.clone(), e.is_dirty(), Arc::strong_count(e), Arc::clone(e)))
+            .collect();
+        v.sort_by(|a, b| a.0.cmp(&b.0));
+        v
+    }
+
+    /// Number of entries parked in the write map (inserted, not yet committed).
+    pub(crate) fn verif_wmap_len(&self) -> usize {
+        self.wmap.lock().unwrap().len()
+    }
+
+    pub(crate) fn verif_limit(&self) -> usize {
+        self.limit
+    }
+}
